@@ -2,6 +2,7 @@ import AcraModel.KeystoreSec.Path
 import AcraModel.KeystoreSec.Der
 import Driver.C18
 import Driver.C07Access
+import Driver.C07RingOpen
 import AcraModel.KeystoreSec.WriteLog
 import AcraModel.Crypto.Shim
 /-! Driver ops for C07. -/
@@ -43,6 +44,6 @@ def handle (op : String) (args : List String) : Option String :=
       if rs.length ≠ n then none
       let rs ← rs.mapM Driver.C18.parseRing
       pure (hexOf (Der.derEncryptedKeys rs))
-  | op, args => (Driver.C07Access.handle op args).orElse fun _ => Driver.V1Keys.handleC07 op args
+  | op, args => ((Driver.C07RingOpen.handle op args).orElse fun _ => Driver.C07Access.handle op args).orElse fun _ => Driver.V1Keys.handleC07 op args
 
 end Driver.C07
